@@ -22,6 +22,7 @@ import gc
 import io
 import sys
 import warnings
+import weakref
 
 warnings.simplefilter("ignore")
 
@@ -75,8 +76,8 @@ class Case:
         self.slots = {}
         self.serial = 0
         self.wids = {}      # id(widget) -> serial   (widgets kept alive only through self.slots / urwid)
-        self.canvs = []     # every canvas seen (strong refs: identities stay unique)
-        self.canv_ids = {}
+        self.canv_ids = {}  # id(canvas) -> (number, weakref)
+        self.canv_count = 0
         self.last_canvas = None
         self.known_live = {}   # serial -> z   as of the last step
 
@@ -133,10 +134,15 @@ class Case:
 
     # ---------------------------------------------------------------- observation
     def canv_ref(self, canv):
-        if id(canv) not in self.canv_ids:
-            self.canv_ids[id(canv)] = len(self.canvs) + 1
-            self.canvs.append(canv)
-        ref = {"id": self.canv_ids[id(canv)], "kind": ["plain"]}
+        # identity numbers without keeping the canvas (and through it its widget) alive: the
+        # entry disappears with the canvas, so that a recycled id() gets a new number
+        key = id(canv)
+        ent = self.canv_ids.get(key)
+        if ent is None or ent[1]() is not canv:
+            self.canv_count += 1
+            ids = self.canv_ids
+            self.canv_ids[key] = (self.canv_count, weakref.ref(canv, lambda _r, key=key, ids=ids: ids.pop(key, None)))
+        ref = {"id": self.canv_ids[key][0], "kind": ["plain"]}
         if isinstance(canv, UrwidImageCanvas):
             try:
                 widget = canv.widget_info[0]
@@ -215,6 +221,8 @@ class Case:
                     w = self.new_widget(st["spec"])
                 except Exception as e:  # exhaustion raises UrwidImageError
                     res["alloc"] = ["raised", type(e).__name__]
+                    # keep the layouts drawable: the slot gets a block image widget instead
+                    self.slots[st["slot"]] = self.new_widget(dict(st["spec"], kind="block"))
                 else:
                     self.slots[st["slot"]] = w
                     res["alloc"] = ["ok", w._verif_serial, st["spec"]["kind"],
@@ -271,7 +279,7 @@ class Case:
                 pass
             self.slots.clear()
             self.last_canvas = None
-            self.canvs.clear()
+            self.canv_ids.clear()
             self.screen = None
             ucanvas.CanvasCache.clear()
             gc.collect()
